@@ -525,6 +525,7 @@ func checkC09Reader(c *ctx, n int, budget time.Duration) {
 		}
 		in := rGenInput(c.rnd)
 		rPlaceFault(c.rnd, &in)
+		noteCase(c09Input{Kind: "reader", Reader: &in})
 		reached := rRunAndJudge(c, in, d, &impl)
 		res.hist(fmt.Sprintf("reader-rd=%d", in.RD))
 		res.hist("reader-kind=" + in.Kind)
